@@ -60,80 +60,80 @@ pub fn plan_for(property: &str) -> Option<(&'static str, Vec<PlanItem>)> {
             "C09",
             vec![
                 PlanItem { family: "direct_seqnr", run: crate::fam::direct::direct_seqnr, quick: 256, thorough: 1024, determinism_check: false },
-                PlanItem { family: "metamorphic", run: c09_metamorphic, quick: 1500, thorough: 40000, determinism_check: true },
+                PlanItem { family: "metamorphic", run: c09_metamorphic, quick: 3000, thorough: 40000, determinism_check: true },
             ],
         ),
         "C11" => (
             "C11",
             vec![
                 PlanItem { family: "wire_grid", run: crate::fam::direct::direct_wire_grid, quick: 256, thorough: 2560, determinism_check: false },
-                PlanItem { family: "wire_random", run: crate::fam::direct::direct_wire_random, quick: 1000, thorough: 20000, determinism_check: false },
-                PlanItem { family: "emitted", run: c11_emitted, quick: 3000, thorough: 60000, determinism_check: false },
+                PlanItem { family: "wire_random", run: crate::fam::direct::direct_wire_random, quick: 2000, thorough: 20000, determinism_check: false },
+                PlanItem { family: "emitted", run: c11_emitted, quick: 6000, thorough: 60000, determinism_check: false },
             ],
         ),
         "C05" => (
             "C05",
-            vec![PlanItem { family: "tx_window", run: c05_tx, quick: 4000, thorough: 120000, determinism_check: true }],
+            vec![PlanItem { family: "tx_window", run: c05_tx, quick: 12000, thorough: 120000, determinism_check: true }],
         ),
         "C06" => (
             "C06",
-            vec![PlanItem { family: "tx_retransmit", run: c06_tx, quick: 4000, thorough: 120000, determinism_check: true }],
+            vec![PlanItem { family: "tx_retransmit", run: c06_tx, quick: 12000, thorough: 120000, determinism_check: true }],
         ),
         "C18" => (
             "C18",
-            vec![PlanItem { family: "tx_nagle", run: c18_tx, quick: 4000, thorough: 120000, determinism_check: true }],
+            vec![PlanItem { family: "tx_nagle", run: c18_tx, quick: 10000, thorough: 120000, determinism_check: true }],
         ),
         "C19" => (
             "C19",
-            vec![PlanItem { family: "tx_buffer", run: c19_tx, quick: 4000, thorough: 120000, determinism_check: true }],
+            vec![PlanItem { family: "tx_buffer", run: c19_tx, quick: 10000, thorough: 120000, determinism_check: true }],
         ),
         "C04" => (
             "C04",
-            vec![PlanItem { family: "rx_honesty", run: c04_rx, quick: 5000, thorough: 150000, determinism_check: true }],
+            vec![PlanItem { family: "rx_honesty", run: c04_rx, quick: 12000, thorough: 150000, determinism_check: true }],
         ),
         "C07" => (
             "C07",
-            vec![PlanItem { family: "rx_timing", run: c07_rx, quick: 5000, thorough: 150000, determinism_check: true }],
+            vec![PlanItem { family: "rx_timing", run: c07_rx, quick: 12000, thorough: 150000, determinism_check: true }],
         ),
         "C14" => (
             "C14",
             vec![
-                PlanItem { family: "mtu_duplex", run: c14_duplex, quick: 4000, thorough: 100000, determinism_check: true },
+                PlanItem { family: "mtu_duplex", run: c14_duplex, quick: 8000, thorough: 100000, determinism_check: true },
                 PlanItem { family: "mtu_converge", run: c14_converge, quick: 600, thorough: 12000, determinism_check: false },
-                PlanItem { family: "mtu_peer_sizes", run: c14_tx, quick: 2000, thorough: 60000, determinism_check: false },
+                PlanItem { family: "mtu_peer_sizes", run: c14_tx, quick: 4000, thorough: 60000, determinism_check: false },
             ],
         ),
         "C08" => (
             "C08",
-            vec![PlanItem { family: "lifecycle", run: c08_life, quick: 3000, thorough: 100000, determinism_check: true }],
+            vec![PlanItem { family: "lifecycle", run: c08_life, quick: 10000, thorough: 100000, determinism_check: true }],
         ),
         "C10" => (
             "C10",
             vec![
-                PlanItem { family: "hostile", run: c10_hostile, quick: 3000, thorough: 100000, determinism_check: true },
-                PlanItem { family: "duplex_scan", run: c10_duplex_scan, quick: 3000, thorough: 60000, determinism_check: false },
-                PlanItem { family: "script_scan", run: c10_script_scan, quick: 6000, thorough: 120000, determinism_check: false },
+                PlanItem { family: "hostile", run: c10_hostile, quick: 6000, thorough: 100000, determinism_check: true },
+                PlanItem { family: "duplex_scan", run: c10_duplex_scan, quick: 6000, thorough: 60000, determinism_check: false },
+                PlanItem { family: "script_scan", run: c10_script_scan, quick: 12000, thorough: 120000, determinism_check: false },
             ],
         ),
         "C12" => (
             "C12",
-            vec![PlanItem { family: "multi", run: c12_multi, quick: 3000, thorough: 100000, determinism_check: true }],
+            vec![PlanItem { family: "multi", run: c12_multi, quick: 8000, thorough: 100000, determinism_check: true }],
         ),
         "C13" => (
             "C13",
-            vec![PlanItem { family: "accept", run: c13_accept, quick: 4000, thorough: 150000, determinism_check: true }],
+            vec![PlanItem { family: "accept", run: c13_accept, quick: 12000, thorough: 150000, determinism_check: true }],
         ),
         "C17" => (
             "C17",
-            vec![PlanItem { family: "handshake", run: c17_hs, quick: 8000, thorough: 250000, determinism_check: true }],
+            vec![PlanItem { family: "handshake", run: c17_hs, quick: 16000, thorough: 250000, determinism_check: true }],
         ),
         "C16" => (
             "C16",
-            vec![PlanItem { family: "direct_rtte", run: crate::fam::direct::direct_rtte, quick: 4000, thorough: 40000, determinism_check: false }],
+            vec![PlanItem { family: "direct_rtte", run: crate::fam::direct::direct_rtte, quick: 8000, thorough: 40000, determinism_check: false }],
         ),
         "C15" => (
             "C15",
-            vec![PlanItem { family: "direct_cubic", run: crate::fam::direct::direct_cubic, quick: 6000, thorough: 60000, determinism_check: false }],
+            vec![PlanItem { family: "direct_cubic", run: crate::fam::direct::direct_cubic, quick: 12000, thorough: 60000, determinism_check: false }],
         ),
         _ => return None,
     })
